@@ -7,8 +7,8 @@ C16 requests. Strings (filter strings, field names, tags) are hex-encoded byte s
   flt.parse <hex>                              → ok <fieldhex> <op> <num/den> <int|float> | err:<kind>
   flt.apply <record…> <fieldhex> <op> <value>  → <keep bits> | err:<kind>
   lp <record…> <taghex|-> <filterhex|->        → err:<kind>
-        | <keep> <maskRef> <raw> <freqs|nan> <labels> <scenario> <exactScenario> <callFreqs> <relabelN>
-  relabel <labels> <genotype>                  → <alleles> <n_allele> | err:index
+        | <keep> <maskRef> <raw> <freqs|nan> <labels> <scenario> <exactScenario> <callFreqs> <callNAllele> <defaultRelabelN>
+  relabel <labels> <genotype> <n_allele|->     → <alleles> <n_allele> | err:index
   postcounts <nAllele> <rows>                  → <counts>
 
   record = <nAlts> <refMasked 0|1> <k> then k × (<namehex> <R|A|1|N> <i|f> <absent | v,v,…>), a value is num/den or `.`
@@ -49,8 +49,6 @@ def showErr : Err → String
   | .typeError => "err:typeError"
   | .invalidHeader => "err:invalidHeader"
   | .freqLength => "err:freqLength"
-  | .intDivide => "err:intDivide"
-  | .intNan => "err:intNan"
 
 def showCmp : Cmp → String
   | .eq => "eq" | .gt => "gt" | .ge => "ge" | .lt => "lt" | .le => "le" | .ne => "ne"
@@ -123,13 +121,14 @@ def handle : String → Handler
       | .error e => some (showErr e)
       | .ok P =>
         let fr := match P.freqs with | none => "nan" | some fs => showRats fs
-        some s!"{showBits P.keep} {if P.maskRef then 1 else 0} {showRats P.raw} {fr} {showNatL (callLabels P)} {showScenario (callScenario P)} {showScenario (exactScenario P)} {showRats (callFrequencies P)} {relabelNAllele (callLabels P)}"
+        some s!"{showBits P.keep} {if P.maskRef then 1 else 0} {showRats P.raw} {fr} {showNatL (callLabels P)} {showScenario (callScenario P)} {showScenario (exactScenario P)} {showRats (callFrequencies P)} {callNAllele P} {relabelNAllele (callLabels P)}"
     | _ => none
-  | "relabel", [labels, g] => do
+  | "relabel", [labels, g, n] => do
     let labels ← parseNatList labels; let g ← parseNatList g
+    let n ← (if n = "-" then some none else (parseNat? n).map some)
     match relabel labels g with
     | none => some "err:index"
-    | some a => some s!"{showNatL a} {relabelNAllele labels}"
+    | some a => some s!"{showNatL a} {relabelNAlleleWith labels n}"
   | "postcounts", [n, rows] => do
     let n ← parseNat? n
     let rows ← parseRows rows
